@@ -695,6 +695,8 @@ fn run_sols(out: &str, tier: &str) -> Value {
             sets: vec![
                 (48, 5, 400, 1, 3), (32, 3, 400, 1, 3), (40, 4, 400, 1, 3), (56, 6, 3000, 1, 2), (72, 7, 8000, 1, 1),
                 (40, 3, 400, 1, 3), (48, 3, 400, 1, 3), (64, 3, 60, 1, 3),
+                // an index width of a whole number of bytes (c + 1 = 16): the smallest such set
+                (120, 7, 12, 0, 1),
             ],
             harvest_instances: 2,
         }
@@ -703,7 +705,7 @@ fn run_sols(out: &str, tier: &str) -> Value {
             sets: vec![
                 (48, 5, 2000, 3, 12), (32, 3, 2000, 3, 12), (40, 4, 2000, 3, 12), (56, 6, 20000, 2, 6), (64, 7, 5, 0, 0),
                 (72, 7, 40000, 1, 4), (40, 3, 2000, 3, 12), (80, 7, 4000, 1, 4), (48, 3, 2000, 3, 12), (72, 5, 2000, 2, 8),
-                (64, 3, 400, 2, 8), (80, 4, 400, 2, 6), (96, 5, 400, 2, 6), (80, 3, 12, 1, 2),
+                (64, 3, 400, 2, 8), (80, 4, 400, 2, 6), (96, 5, 400, 2, 6), (80, 3, 12, 1, 2), (120, 7, 40, 0, 3),
             ],
             harvest_instances: 5,
         }
@@ -715,7 +717,8 @@ fn run_sols(out: &str, tier: &str) -> Value {
         let (want_full, want_light) = (*want_full, *want_light);
         let (mut full_done, mut light_done, mut instances, mut solutions_found) = (0usize, 0usize, 0usize, 0usize);
         let mut counts = [0usize; 4];
-        let harvest_n = if big { 1 } else { plan.harvest_instances };
+        // (120,7): 2^16 leaves per instance - solutions and light suites only, no harvest of near-solutions
+        let harvest_n = if *n >= 100 { 0 } else if big { 1 } else { plan.harvest_instances };
         while instances < *search_bound && (full_done < want_full || light_done < want_light || instances < harvest_n) {
             instances += 1;
             // full suites use short messages (every bit of them is flipped), the others realistic lengths
